@@ -155,6 +155,8 @@ static int parseReset(MPT_INTERFACE(iterator) *ptr)
 	/* value after separator config */
 	if ((it->val = strchr((void *) (it + 1), 0))) {
 		++it->val;
+		/* advancing beyond the end drops the end marker */
+		it->end = it->val + strlen(it->val);
 	}
 	return 1;
 }
